@@ -293,6 +293,8 @@ class _Thread:
     def __init__(self, num):
         self.global_num = num
         self.num = num
+        self.ptid = (4242, 4242 + num - 1, 0)      # the first thread's LWP id equals the pid
+        self.name = 'stub'
 
 
 class Frame:
